@@ -40,6 +40,13 @@ def scenarios(wd):
         cmds += ["asm 0 %s" % common.hx(pt), "setoff 0 %d" % (300 + 20000 * i), "asm 0 %s" % common.hx(pt)]
     cmds += ["sum 0 %d %d" % (300 + 20000 * i, 300 + 20000 * (i + 1)) for i in range(10)] + ["sum 0 0 300", "del 0"]
     S["S7-grow-long-continue"] = cmds
+    # a file that is longer than fstat said (it grew in between; also what a pipe or a /proc file looks like): whatever the library
+    # reads of it without a fault, a refused operation while reading must not pass for the end of the file
+    gpath = os.path.join(wd, "c17-grown.asm")
+    with open(gpath, "w") as f:
+        f.write("mov rax, rbx ;..\n" * 2560)  # 16 bytes per line, 40 kB; the reported size 4096 ends on a line boundary
+    S["S8-file-longer-than-stat"] = ["new 0 int", "asm 0 %s" % common.hx(first), "sumoff 0", "wrap fstatshrink 4096", "@", "file 0 %s" % gpath, "sumoff 0", "sum 0 0 300", "del 0"]
+    S["S8-filecnt-longer-than-stat"] = ["new 0 int", "asm 0 %s" % common.hx(first), "sumoff 0", "wrap fstatshrink 4096", "@", "filecnt 0 8 %s" % gpath, "sumoff 0", "sum 0 0 300", "del 0"]
     return S
 
 
@@ -129,7 +136,12 @@ def run(tier):
             if c0 == "bin" and rr[0] == "B" and rr[1] != "0":
                 reported = True
                 break
-        if s in MUST_REPORT and not reported:
+        if not bad and not reported:
+            # whatever was (not) reported: the observable end state must then be that of the fault-free run
+            for i in range(at + 1, len(cmds)):
+                if cmds[i] == "sumoff 0" and rec_of(i).split()[1:] != ref[n][1 + i].split()[1:]:
+                    bad = ("silent-failure-changes-result", "after the injected %s failure no call failed, but offset/code %s differ from the fault-free run %s" % (s, rec_of(i), ref[n][1 + i]))
+        if not bad and s in MUST_REPORT and not reported:
             bad = ("failure-not-reported", "no call after the injected %s failure returned NULL/EXIT_FAILURE: %s" % (s, " | ".join(recs[at + 1:at + 5])))
         # earlier code intact; and code assembled by the calls after the failing one is where it belongs
         if not bad and "sumoff 0" in cmds[:at]:
